@@ -212,11 +212,11 @@ def c04(run):
 
 def c15(run):
     for n, d in ((2, 10), (3, 7), (4, 6), (5, 5), (6, 4)):
-        run.scen("MC_Huffman", {"NSym": n, "Depth": d + (1 if run.thorough else 0), "MaxCount": 1000}, invariants=("Inv", "Export"),
+        run.scen("MC_Huffman", {"NSym": n, "Depth": d + (1 if run.thorough else 0), "MaxCount": 1000}, invariants=("Inv", "OutOfRangeIsRefused", "Export"),
                  workers=8, name=f"MC_Huffman N={n}")
     # capacity on the model (small counters): refusal exactly when the root weight reaches MaxCount, tree unchanged
     for n, d, mc in ((2, 8, 6), (3, 7, 7), (4, 6, 8)):
-        run.scen("MC_Huffman", {"NSym": n, "Depth": d, "MaxCount": mc}, invariants=("Inv", "Export"), workers=8, own=lambda m: False,
+        run.scen("MC_Huffman", {"NSym": n, "Depth": d, "MaxCount": mc}, invariants=("Inv", "OutOfRangeIsRefused", "Export"), workers=8, own=lambda m: False,
                  name=f"MC_Huffman N={n} MaxCount={mc} (model-level capacity; the code's counters are 16 bits wide)")
     # pipeline V at the real size: histories of the 314-symbol tree up to and across the 65221-update capacity
     exe = run.harness("huff_rec")
